@@ -265,7 +265,7 @@ class _Norm:
             return "COLLECTION"
         return ""
 
-    def def_text(self, name: str, at=None) -> str:
+    def def_text(self, name: str, at=None, depth: int = 0) -> str:
         """what defines a local where `at` is evaluated (its reaching definitions), as text that does not depend on its name:
         `info` is `= self.providers[OTHER0].info_oid(?a)`"""
         key = (name, id(at))
@@ -279,7 +279,8 @@ class _Norm:
                 elif op:
                     out.add("%s %s" % (how, op))
                 else:
-                    out.add("%s %s" % (how, generalise(ast.unparse(self.expr(v, defs=False)))))
+                    # (the expression a `with ... as x` opens is expanded once more: `open(partial_name, 'wb')` is `open(self.f + '.tmp', 'wb')`)
+                    out.add("%s %s" % (how, generalise(ast.unparse(self.expr(v, defs=(how == "with" and depth < 2), at=v if how == "with" else None, depth=depth + 1)))))
             self._def_text[key] = " | ".join(sorted(out)).replace("$", "?")     # `$` would be read as a metavariable by the matcher
         return self._def_text[key]
 
@@ -313,7 +314,7 @@ class _Norm:
                     if len(ents) == 1 and ents[0][0] == "=" and ents[0][1] is not None and not me._opaque(ents[0][1]) and depth < 3 \
                             and not any(isinstance(x, ast.Name) and x.id == n.id for x in ast.walk(ents[0][1])):
                         return ast.copy_location(me.expr(ents[0][1], defs=True, at=ents[0][2], depth=depth + 1), n)
-                    dt = me.def_text(n.id, at)
+                    dt = me.def_text(n.id, at, depth)
                     if dt == "= COLLECTION" and n is not root:
                         return ast.copy_location(ast.Name(id="COLLECTION", ctx=ast.Load()), n)      # inside an expression a collection is a collection
                     return ast.copy_location(ast.Call(func=ast.Name(id="DEF", ctx=ast.Load()), args=[ast.Constant(value=dt)], keywords=[]), n)
@@ -506,9 +507,35 @@ def _return_sites(w, v, at, pre):
         ents = w.nm.reaching(v.id, at)
         if len(ents) == 1 and ents[0][0] == "=" and ents[0][1] is not None and _constant_like(ents[0][1]):
             return [(ast.unparse(ents[0][1]), pre)]
+    if isinstance(v, ast.Constant) and isinstance(v.value, bool):
+        return [("<true>" if v.value else "<false>", pre)]
     if _constant_like(v):
         return [(ast.unparse(v), pre)]
+    # a returned test is a decision: `return a and b` is `if a and b: return True` / `return False`
+    vv = v
+    if isinstance(vv, ast.Name) and vv.id in w.nm.locdefs and vv.id not in w.nm.side_names:
+        ents = w.nm.reaching(vv.id, at)
+        if len(ents) == 1 and ents[0][0] == "=" and isinstance(ents[0][1], (ast.BoolOp, ast.Compare, ast.UnaryOp)) and not w.nm._opaque(ents[0][1]):
+            vv = ents[0][1]
+    if isinstance(vv, (ast.BoolOp, ast.Compare)) or (isinstance(vv, ast.UnaryOp) and isinstance(vv.op, ast.Not)):
+        c = w.formula(vv, at)
+        return [("<true>", f_and(pre, c)), ("<false>", f_and(pre, f_not(c)))]
+    if not any(isinstance(x, ast.Call) for x in ast.walk(v)):
+        _note_value(w, "return <expr>", _val_text(w, v, at))        # (a returned call / constructor is an action with its own row; a shared builder may be extracted)
     return [("<expr>", pre)]        # which local carries the value is spelling: `x = f(); return x` is `return f()`
+
+
+def _val_text(w, e, at) -> str:
+    """a value (an argument, what is stored, what is returned) in the name-independent spelling of the atoms"""
+    try:
+        return _generalise(ast.unparse(w.nm.expr(e, at=at)))
+    except Exception:
+        return "<?>"
+
+
+def _note_value(w, shape: str, text: str):
+    vals = w.__dict__.setdefault("values", {})
+    vals.setdefault(shape, []).append(text)
 
 
 def _sites_of(w, node, at):
@@ -526,7 +553,16 @@ def _sites_of(w, node, at):
         for (c, pre) in _calls_in(w, p, at, TRUE):
             if id(c) in w.skip_calls:
                 continue
-            out.append((_call_shape(c, w.nm, ctx, w.f), pre))
+            sh = _call_shape(c, w.nm, ctx, w.f)
+            out.append((sh, pre))
+            pos_ = _bound(ctx, w.f, c)
+            argv = []
+            for i_, a in enumerate(c.args):
+                argv.append("#%d=%s" % (i_, _val_text(w, a, at)))
+            for k in c.keywords:
+                if k.arg:
+                    argv.append("%s=%s" % ("#%d" % pos_.index(k.arg) if pos_ and k.arg in pos_ else k.arg, _val_text(w, k.value, at)))
+            _note_value(w, sh, "(" + ", ".join(sorted(argv)) + ")")
     st = node
     if not isinstance(st, ast.stmt):
         return out
@@ -571,6 +607,12 @@ def _sites_of(w, node, at):
             if shape is not None:
                 # `x.a = p if c else q` is `if c: x.a = p` / `else: x.a = q`: the same store either way - one site
                 out.append((shape, TRUE))
+                if shape.startswith(("store ", "setitem ")) and len(flat) == 1:
+                    if isinstance(st.value, ast.IfExp):
+                        _note_value(w, shape, _val_text(w, st.value.body, st))
+                        _note_value(w, shape, _val_text(w, st.value.orelse, st))
+                    else:
+                        _note_value(w, shape, ("%s= " % type(st.op).__name__ if isinstance(st, ast.AugAssign) else "") + _val_text(w, st.value, st))
     return out
 
 
@@ -624,6 +666,7 @@ def _new_helper(ctx: Ctx, g, call: ast.Call):
 
 
 _ORDER: Dict[str, List] = {}      # spec -> order pairs of the last function_shapes() call for it
+_VALUES: Dict[str, Dict[str, List[str]]] = {}      # spec -> shape -> the values passed / stored / returned at its sites
 
 
 def function_shapes(ctx: Ctx, spec: str):
@@ -639,6 +682,7 @@ def function_shapes(ctx: Ctx, spec: str):
     _ORDER[spec] = None
     from rules.reachcond import order_pairs
     _ORDER[spec] = order_pairs(w)
+    _VALUES[spec] = {k: sorted(v) for k, v in getattr(w, "values", {}).items()}
     return f, shape_functions(w)
 
 
@@ -765,6 +809,8 @@ def build_table(ctx: Ctx):
             continue
         if _ORDER.get(spec):
             t["%s|<order>" % spec] = {"atoms": [], "when": "1", "pairs": [list(p) for p in _ORDER[spec]], "order": True}
+        if _VALUES.get(spec):
+            t["%s|<values>" % spec] = {"atoms": [], "when": "1", "values": _VALUES[spec], "order": True}
         if not any(gen for (gen, _t, _r, _d, _s) in r[1].values()):
             # a function without a guard decides nothing: which calls it makes is not pinned here (wrappers are inlined, renamed, re-routed freely);
             # what is pinned is that it HAS no guard - an action that becomes conditional is a decision that was not there
@@ -816,6 +862,30 @@ def decision_table(ctx: Ctx, rep: Report, rid: str, functions=None, shapes: str 
     n = want = 0
     for spec in specs:
         keys = {k: v for k, v in table.items() if k.split("|")[0] == spec}
+        values_old = keys.pop("%s|<values>" % spec, None)
+        if values_old is not None and shapes is None:
+            r0 = function_shapes(ctx, spec)
+            if r0 is not None:
+                f0 = r0[0]
+                now = _VALUES.get(spec) or {}
+                bad = []
+                for sh, old_vals in sorted(values_old["values"].items()):
+                    cur_vals = now.get(sh)
+                    if cur_vals is None or len(cur_vals) != len(old_vals):
+                        continue        # the sites of this shape were merged / split / moved: not comparable value by value
+                    if any(("DEF(" in v and " | " in v) or "<?>" in v or "ELEM" in v or "DEF('in" in v or 'DEF("in' in v for v in list(cur_vals) + list(old_vals)):
+                        continue        # a value that is a local with several definitions is described by how the tails are written: not comparable
+                    if sorted(cur_vals) != sorted(old_vals):
+                        gone = [v for v in old_vals if v not in cur_vals]
+                        new_ = [v for v in cur_vals if v not in old_vals]
+                        bad.append((sh, gone, new_))
+                if bad:
+                    sh, gone, new_ = bad[0]
+                    rep.violation(rid, "%s|<values>" % spec, "%s:%d" % (f0.module.relpath, f0.node.lineno), "%s: the action `%s` now carries %s where the decision table records %s "
+                                  "(%d action(s) of this function changed what they pass / store / return)" % (f0.name, sh, new_[:2], gone[:2], len(bad)), func=f0.qname)
+                else:
+                    rep.ok(rid, "%s|<values>" % spec, "%s:%d" % (f0.module.relpath, f0.node.lineno), "%d action shapes pass / store / return the recorded values"
+                           % len(values_old["values"]), nontrivial=True, func=f0.qname)
         order_old = keys.pop("%s|<order>" % spec, None)
         if order_old is not None and shapes is None:
             r0 = function_shapes(ctx, spec)
